@@ -966,12 +966,12 @@ fn enumerate(args: &Args) -> Vec<HCase> {
             // around the word (128) and line (256) boundaries, and around their halves and multiples
             let lens = [0usize, 1, 31, 32, 33, 63, 64, 65, 95, 96, 97, 126, 127, 128, 129, 191, 192, 193, 254, 255, 256, 257, 383, 384, 385, 511, 512, 513];
             for &n in &lens {
-                let d = if n == 0 { if th { 6 } else { 4 } } else if th { 5 } else { 3 };
+                let d = if n == 0 { if th { 6 } else { 5 } } else if th { 5 } else { 4 };
                 v.push(HCase::QvModel { start_len: n, cap: false, depth: d });
             }
             v.push(HCase::QvModel { start_len: 0, cap: true, depth: 3 });
             v.push(HCase::QvModel { start_len: 255, cap: true, depth: 3 });
-            for g in tiny_all(4, if th { 7 } else { 5 }) {
+            for g in tiny_all(4, if th { 7 } else { 6 }) {
                 for ty in 0..12u8 {
                     for offset in [0i8, 1, 7, 100, -1, -3, -100] {
                         if offset < 0 && ty >= 6 {
@@ -989,7 +989,7 @@ fn enumerate(args: &Args) -> Vec<HCase> {
         }
         "C12" => {
             let aliases = ["QWT256", "QWT512", "QWT256Pfs", "QWT512Pfs", "HQWT256", "HQWT512", "HQWT256Pfs", "HQWT512Pfs", "WT", "HWT"];
-            for g in tiny_all(3, if th { 7 } else { 5 }) {
+            for g in tiny_all(3, if th { 7 } else { 6 }) {
                 for (j, al) in aliases.iter().enumerate() {
                     let huff = al.starts_with('H');
                     // element type rotates with alias and case
